@@ -602,6 +602,7 @@ func (g *c07Gen) Scenario(r *Rng, tier string) (c07Scn, bool) {
 		switch r.Intn(3) {
 		case 0:
 			cm.Spec = nil
+			s.XR = nil
 			mal = "nospec"
 		case 1:
 			if s.XR != nil {
